@@ -31,6 +31,41 @@ type hQueue struct {
 	chunks []int
 	chunkI int
 	log    []byte // every byte accepted (after tampering)
+	// transport faults (armed by arm): the write with index At (counted from arming) puts its bytes
+	// (or only the first Keep of them when Keep >= 0) on the wire and then reports an error, the way a
+	// write deadline firing late does. segs records, per Write call since arming, what reached the wire.
+	faults []hFault
+	armed  bool
+	wcount int
+	segs   []hSeg
+}
+
+// hFault is one drawn transport fault on the writer side.
+type hFault struct {
+	At   int `json:"at"`
+	Keep int `json:"keep"` // <0: all bytes reach the wire; otherwise only this many
+}
+
+// hSeg is what one Write call put on the wire.
+type hSeg struct {
+	b      []byte
+	failed bool // the call returned an error
+	full   int  // length the caller asked to write
+}
+
+var errHFault = errors.New("harness pipe: write reported as failed (i/o timeout)")
+
+// arm starts counting writes and installs the faults.
+func (q *hQueue) arm(f []hFault) {
+	q.mu.Lock()
+	q.faults, q.armed, q.wcount, q.segs = f, true, 0, nil
+	q.mu.Unlock()
+}
+
+func (q *hQueue) segments() []hSeg {
+	q.mu.Lock()
+	defer q.mu.Unlock()
+	return append([]hSeg{}, q.segs...)
 }
 
 func newHQueue() *hQueue {
@@ -52,9 +87,26 @@ func (q *hQueue) Write(p []byte) (int, error) {
 		b = q.tamper(q.total, b)
 	}
 	q.total += len(p)
+	var ferr error
+	if q.armed {
+		idx := q.wcount
+		q.wcount++
+		for _, f := range q.faults {
+			if f.At == idx {
+				ferr = errHFault
+				if f.Keep >= 0 && f.Keep < len(b) {
+					b = b[:f.Keep]
+				}
+			}
+		}
+		q.segs = append(q.segs, hSeg{b: append([]byte{}, b...), failed: ferr != nil, full: len(p)})
+	}
 	q.buf = append(q.buf, b...)
 	q.log = append(q.log, b...)
 	q.cond.Broadcast()
+	if ferr != nil {
+		return len(b), ferr
+	}
 	return len(p), nil
 }
 
